@@ -166,7 +166,42 @@ def eval_pool(case):
 def evaluate(case):
     if case.get("kind") == "variation":
         return eval_variation(case)
+    if case.get("kind") == "pattern-pool":
+        texts = _pattern_pool(case["idx"])
+        if len(texts) < 2:
+            res = Res()
+            res.label("pattern-pool:single-string")
+            return res
+        res = eval_pool({"texts": texts})
+        res.label("pattern-pool")
+        res.nontrivial = True
+        res.key = ("pattern-pool", case["idx"])
+        return res
     return eval_pool(case)
+
+
+def _pattern_pool(idx):
+    """All structurally different strings of one full-citation extractor's pattern (page with/without suffix, roman,
+    placeholder, optional parts ...), each twice in different contexts: a pool in which == must follow the groups."""
+    from eyecite.tokenizers import EXTRACTORS
+
+    from vf.gen import regexgen
+
+    if idx >= len(EXTRACTORS) - 5:
+        return []
+    e = EXTRACTORS[idx]
+    out = []
+    seen = set()
+    for cand in regexgen.alternatives(e.regex, e.flags, limit=40):
+        m = e.compiled_regex.search(cand)
+        if not m:
+            continue
+        core = m.group(1).strip()
+        if core and core not in seen:
+            seen.add(core)
+            out.append(core)
+            out.append(f"Foo v. Bar, {core} (1999)")
+    return out[:24]
 
 
 @st.composite
@@ -197,11 +232,18 @@ def _pool(draw):
     return {"kind": "pool", "texts": texts}
 
 
+def _pattern_pool_items():
+    from eyecite.tokenizers import EXTRACTORS
+
+    return [{"kind": "pattern-pool", "idx": i} for i, e in enumerate(EXTRACTORS[:-5]) if not e.extra.get("short")]
+
+
 def phases(tier):
     n = 4000 if tier == "quick" else 100000
     combos = [("12", "345")] if tier == "quick" else [("12", "345"), ("1", "1"), ("99", "1000")]
     return [
         Phase("variations", "enum", exhaustive=True,
               items=lambda: [{"kind": "variation", "variation": v, "edition": e, "volume": vol, "page": pg} for v, e in inv.single_candidate_variations() for vol, pg in combos]),
+        Phase("pattern-pools", "enum", exhaustive=True, items=_pattern_pool_items),
         Phase("pools", "gen", strategy=_pool, n=n),
     ]
